@@ -215,6 +215,29 @@ def check_src(rep, prog, fm):
         rep.check(not loose, rule, "every path that keeps a PEL passed the --src or the --src-exclude test", q, "final_summary[eid] = summary",
                   "a PEL can be kept without having passed the --src / --src-exclude test")
 
+    if exc is not None:
+        # ... and the exclude file's text decides nothing but that containment test: whether it is empty, how long it is or what
+        # it starts with may not keep a PEL out of the listing
+        ftext = exc[1].args[1]
+        other = []
+        def leaves(c):
+            if isinstance(c, Op) and c.op in ("and", "or", "not"):
+                for a in c.args:
+                    yield from leaves(a)
+            elif isinstance(c, Ite):
+                for a in (c.c, c.a, c.b):
+                    yield from leaves(a)
+            else:
+                yield c
+        same_test = (exc[1], Op("in", *exc[1].args))
+        for g in guards:
+            for c in leaves(pelx.specialise(g, g)):
+                if any(x == ftext for x in walk(c)) and c not in same_test and c not in other:
+                    other.append(c)
+        rep.check(not other, rule, "the exclude file's text is used for the containment test only", q, "if summary['SRC'] not in src_exclude_file_data",
+                  "whether a PEL is listed under --src-exclude also depends on %s: a PEL whose reference code does not occur in the "
+                  "file can be left out (e.g. with an empty exclude file)" % ", ".join(repr(c)[:900] for c in other))
+
     def is_summary_src(t):
         return isinstance(t, Op) and t.op == "getitem" and t.args[1] == Const("SRC") and isinstance(t.args[0], Op) and \
             t.args[0].op == "getitem" and t.args[0].args[1] == Const(1)
@@ -311,4 +334,8 @@ def run(rep, prog, thorough):
     # other selection is "every PEL" (the decision table of C07, which contains these rows)
     from .c07 import check_decision_table
     check_decision_table(rep, prog, False)
+    # "lists all matching PELs": a file the decode fails on (for whatever reason) does not end the search - the per-file
+    # barrier catches every Exception (rule shared with C09)
+    from .c09 import check_barriers
+    check_barriers(rep, FullMain(prog))
     rep.floor("obligations", len(rep.obligations), 15)
